@@ -124,6 +124,25 @@ CLAIMED = {
           "descending bands is not judged (absolute value compared)."),
     technique="TLA+ model (TLC exhaustive) + spec-generated configurations replayed on the implementation",
     design_ref="DESIGN.md 4.10, 5 (C20)", engine="accounting"),
+ "C14": dict(
+    text=("InputMode.tla models from_data/record onto existing RAW: output block k is built from input block k read at "
+          "a block boundary of input file k div bpf, at most min(requested, input) blocks are written, and the custom "
+          "deviation handed to the requantiser is the filterbank's cached unit-noise deviation times the digitiser "
+          "target deviation (or 1) at every sub-block, with the cached value untouched. TLC checks ReadsInOrder, "
+          "LengthClampedToInput, GainStationary, CachedStdUntouched over all (blocks/file, files, partial last file, "
+          "requested length <,=,>, omitted; sub-blocks; digitiser). Each configuration is instantiated (8/4 bit, 1-2 "
+          "pols, 1-2 antennas, padded/unpadded headers of varying length, tone or nothing injected, lazy or "
+          "pre-computed unit-noise estimate): every decoded input block must equal the stored samples exactly, the "
+          "framing and length accounting must match, the custom deviation of every requantiser call must equal the "
+          "model's, the synthetic spectra must be the PFB of one continuous antenna timeline, the second "
+          "requantisation must take input + scaled synthetic with the input block's statistics as targets, the file "
+          "bytes must be the requantised values in standard layout, and with nothing injected and one sub-block the "
+          "output must reproduce the input bit for bit."),
+    note=("Trusted: TLC, harness GUPPI writer/parser, reference PFB; observation through wrappers on _read_next_block and "
+          "the requantisers' RealQuantizer.quantize (pipeline-internal methods). Sub-block counts divide the windows "
+          "per block here. Quantisation formula itself is C09's."),
+    technique="TLA+ model (TLC exhaustive) + spec-generated configurations replayed on the implementation with wrapped pipeline stages",
+    design_ref="DESIGN.md 4.10, 5 (C14)", engine="inputmode"),
 }
 
 NOT_YET = "check not built yet in this round (planned, see DESIGN.md 5); no claim is made"
